@@ -232,6 +232,8 @@ def opt_case(draw, tier, cvx=False):
     c["competitors"] = comps
     if cvx:
         c["cvx_loss"] = draw(st.sampled_from(["use", "re", "are"]))
+        # the algorithm object may have solved another problem before (other constraint mode / other data)
+        c["cvx_warm"] = draw(st.sampled_from([None, None, "unconstraint", "physical"]))
     return c
 
 
@@ -359,10 +361,22 @@ def check_cvxpy(case, ctx):
             "are": CvxpyApproximateRelativeEntropyWithZeroProbabilityTerm}[case["cvx_loss"]]()
     import warnings
 
+    algo = CvxpyMinimizationAlgorithm()
+    if case.get("cvx_warm"):
+        ctx.label("algo_used_before:" + case["cvx_warm"])
+        with warnings.catch_warnings():
+            warnings.simplefilter("ignore")
+            try:
+                CvxpyLossMinimizationEstimator().calc_estimate(
+                    qt, tomo.make_empi({"data": "exact", "n": 100}, exact), CvxpyUniformSquaredError(), CvxpyLossFunctionOption(), algo,
+                    CvxpyMinimizationAlgorithmOption(name_solver="scs", mode_constraint=case["cvx_warm"], eps_tol=1e-6))
+            except Exception as e:  # the warm-up itself is not under test
+                ctx.label("warmup_failed:" + type(e).__name__)
+                algo = CvxpyMinimizationAlgorithm()
     with warnings.catch_warnings(record=True) as caught:
         warnings.simplefilter("always")
         res = CvxpyLossMinimizationEstimator().calc_estimate(
-            qt, empi, loss, CvxpyLossFunctionOption(), CvxpyMinimizationAlgorithm(),
+            qt, empi, loss, CvxpyLossFunctionOption(), algo,
             CvxpyMinimizationAlgorithmOption(name_solver="scs", eps_tol=1e-9))
     if any("inaccurate" in str(w.message).lower() for w in caught):
         # SCS stopped at its iteration limit ("Solution may be inaccurate"): the solver did not reach its stopping
